@@ -136,8 +136,9 @@ theorem over_admit_monitor_sound (rate burst : Nat) (hr : rate ≠ 0) (pre : Lis
 
   `Backlogged rate burst p rest`: over the window `(p, rest]` the subscriber offers a packet at every
   arrival, every gap earns at most the packet offered before it (offered load ≥ earned tokens) and cannot
-  overflow the bucket — decidable from the arrival sequence alone.  Everything is scaled by `SCALE = 8·10⁹`
-  so that `gap [ns] × rate [bit/s]` is exact. -/
+  overflow the bucket — decidable from the arrival sequence alone.  It forces every offered packet to fit into the
+  burst (`backlogged_len_le_burst`); packets larger than the burst are finding KF-qos-burst-lt-pkt below.
+  Everything is scaled by `SCALE = 8·10⁹` so that `gap [ns] × rate [bit/s]` is exact. -/
 
 /-- the property's lower bound for the window `(p, rest]`, full strength -/
 def ServedGe (b : Bucket) (pre : List Arrival) (p : Arrival) (rest post : List Arrival) (maxPkt : Nat) : Prop :=
@@ -265,6 +266,54 @@ theorem D52_starvation_unbounded (n : Nat) (c : Bucket) (g : UInt64) (len : UInt
   | zero => simp [polls, admitted]
   | succ n ih => simp [polls, admitted, List.replicate_succ, ih]
 
+/-! ### finding KF-qos-burst-lt-pkt: a packet larger than the burst is never admitted
+
+  `Backlogged` forces every offered packet to fit into the burst (`backlogged_len_le_burst`), so the theorems
+  above say nothing about a subscriber whose packets are larger than the burst the control plane installed
+  (`SetSubscriberQoS` accepts any `BurstBytes ≥ 1`).  What happens to it is stated here. -/
+
+theorem backlogged_len_le_burst {rate burst : Nat} {p a : Arrival} {rest : List Arrival}
+    (h : Backlogged rate burst p (a :: rest)) : p.len.toNat ≤ burst := by
+  obtain ⟨_, hg, _⟩ := h
+  unfold backloggedGap at hg
+  simp only [Bool.and_eq_true, decide_eq_true_eq] at hg
+  have : p.len.toNat * SCALE ≤ burst * SCALE := by omega
+  exact Nat.le_of_mul_le_mul_right this (by decide)
+
+/-- A packet larger than the bucket's burst is dropped — at any time, from any bucket state. -/
+theorem oversize_never_admitted (b : Bucket) (now : UInt64) (len : UInt32) (hr : b.rate ≠ 0)
+    (h : b.burst.toNat < len.toNat) : (check b now len).2 = false := by
+  obtain ⟨_, _, _, _, _, h6, _⟩ := check_spec b now len hr
+  have := refill_le_burst b now
+  rw [h6]; exact decide_eq_false (by omega)
+
+/-- exclusion clause of KF-qos-burst-lt-pkt: every packet offered in the window is larger than the burst -/
+def excl_oversize (b : Bucket) (arr : List Arrival) : Bool := arr.all fun a => decide (b.burst.toNat < a.len.toNat)
+
+/-- … so a subscriber that offers only such packets is served NOTHING, for ever, whatever the rate and however
+    long it waits (another cause than D52: no arithmetic loss is involved). -/
+theorem oversize_starves (arr : List Arrival) (b : Bucket) (hr : b.rate ≠ 0) (h : excl_oversize b arr = true) :
+    admitted arr (runBucket b arr).2 = 0 := by
+  induction arr generalizing b with
+  | nil => simp [runBucket, admitted]
+  | cons a rest ih =>
+    unfold excl_oversize at h
+    simp only [List.all_cons, Bool.and_eq_true, decide_eq_true_eq] at h
+    rw [runBucket_cons]
+    obtain ⟨h1, h2, _⟩ := check_spec b a.t a.len hr
+    have hd := oversize_never_admitted b a.t a.len hr h.1
+    simp only [admitted, hd]
+    have := ih (check b a.t a.len).1 (by rw [h1]; exact hr) (by unfold excl_oversize; rw [h2]; exact h.2)
+    simpa using this
+
+/-- **KF-qos-burst-lt-pkt, witness.**  The bucket the manager installs for 1 Mbit/s with a 1000-byte burst, offered
+    1500-byte packets at exactly line rate (one every 12 ms): every one is dropped. -/
+theorem KF_burst_lt_pkt_witness :
+    let b := egressBucket { ip := [10, 0, 0, 5], down := 1000000, up := 1000000, burst := 1000, prio := 0 }
+    (runBucket b (polls 8 0 12000000 1500)).2 = List.replicate 8 false ∧
+    excl_oversize b (polls 8 0 12000000 1500) = true := by
+  decide
+
 /-! ## the policy set through the control plane is the one enforced -/
 
 /-- the bucket SetSubscriberQoS installs for a direction -/
@@ -285,6 +334,7 @@ instance (d : Dir) (frame ip : Bytes) : Decidable (SubscriberFrame d frame ip) :
   unfold SubscriberFrame; cases d <;> exact inferInstance
 
 /-- **Policy enforced.**  After `SetSubscriberQoS q` (whatever the maps held before), every IPv4 frame
+    (a `SubscriberFrame`: untagged, IPv4 — everything else is finding KF-qos-unclassified below)
     to (egress) / from (ingress) the subscriber's address is looked up under exactly the key the manager
     wrote, finds exactly the bucket the manager wrote (rate, burst, priority of the policy, full), and is
     judged by `token_bucket_check` on that bucket.  (Holds since fix 6defdda; before it the program looked
@@ -359,6 +409,54 @@ theorem removed_policy_not_enforced (d : Dir) (c : Ctl) (a b x e : UInt8) (now :
   have hl : AMap.lookup ((c.remove [a, b, x, e]).maps.get d) (keyBytes [a, b, x, e]) = none := by
     cases d <;> simp [Ctl.remove, removeSubscriberQoS, Maps.get]
   simp only [hkey, hl]
+
+/-! ### finding KF-qos-unclassified: only untagged IPv4 is ever classified
+
+  `policy_enforced` is about `SubscriberFrame`s: untagged Ethernet II / IPv4.  Every other frame — IPv6, and IPv4
+  behind a VLAN tag in the packet data or a PPPoE session header — is passed without any lookup, whatever its
+  size and whatever policy is installed. -/
+
+/-- exclusion clause of KF-qos-unclassified: the ethertype field at offset 12 is not IPv4 -/
+def excl_unclassified (frame : Bytes) : Bool := decide (14 ≤ frame.length ∧ (frame.drop 12).take 2 ≠ [0x08, 0x00])
+
+/-- A frame whose ethertype field is not IPv4 is never looked up and never limited: TC_ACT_OK, maps untouched. -/
+theorem unclassified_unlimited (d : Dir) (m : Maps) (now : UInt64) (frame : Bytes) (len : UInt32)
+    (h : (frame.drop 12).take 2 ≠ [0x08, 0x00]) :
+    (runProg d m now frame len).2 = { ret := TC_ACT_OK } ∧ (runProg d m now frame len).1.egress = m.egress ∧
+    (runProg d m now frame len).1.ingress = m.ingress := by
+  have hk : lookupKey d frame = none := by
+    unfold lookupKey
+    by_cases hl : frame.length < 14
+    · simp [hl]
+    · simp [hl, h]
+  unfold runProg
+  simp [hk]
+
+/-- in particular every IPv6 frame … -/
+theorem ipv6_unlimited (d : Dir) (m : Maps) (now : UInt64) (frame : Bytes) (len : UInt32)
+    (h : (frame.drop 12).take 2 = [0x86, 0xdd]) : (runProg d m now frame len).2.ret = TC_ACT_OK := by
+  rw [(unclassified_unlimited d m now frame len (by rw [h]; decide)).1]
+
+/-- … and every frame with an 802.1Q / 802.1ad / legacy tag or a PPPoE session header at offset 12, although this
+    gateway identifies subscribers by S/C-tag. -/
+theorem tagged_unlimited (d : Dir) (m : Maps) (now : UInt64) (frame : Bytes) (len : UInt32)
+    (h : (frame.drop 12).take 2 = [0x81, 0x00] ∨ (frame.drop 12).take 2 = [0x88, 0xa8] ∨
+         (frame.drop 12).take 2 = [0x91, 0x00] ∨ (frame.drop 12).take 2 = [0x92, 0x00] ∨
+         (frame.drop 12).take 2 = [0x88, 0x64]) : (runProg d m now frame len).2.ret = TC_ACT_OK := by
+  have hne : (frame.drop 12).take 2 ≠ [0x08, 0x00] := by
+    rcases h with h | h | h | h | h <;> rw [h] <;> decide
+  rw [(unclassified_unlimited d m now frame len hne).1]
+
+/-- **KF-qos-unclassified, witness.**  1 kbit/s with a burst of 2 bytes installed for 10.0.0.5: the VLAN-tagged
+    64 KB frame to 10.0.0.5 passes, the same frame untagged is dropped. -/
+theorem KF_unclassified_witness :
+    let m := setSubscriberQoS {} { ip := [10, 0, 0, 5], down := 1000, up := 1000, burst := 2, prio := 0 }
+    let ip : Bytes := [0x45,0,0,20, 0,0,0,0, 64,17,0,0, 192,168,1,1, 10,0,0,5]
+    let eth : Bytes := [2,0,0,0,0,1, 2,0,0,0,0,2]
+    (runProg .egress m 1000 (eth ++ [0x81,0x00,0x00,0x64, 0x08,0x00] ++ ip) 65535).2.ret = TC_ACT_OK ∧
+    excl_unclassified (eth ++ [0x81,0x00,0x00,0x64, 0x08,0x00] ++ ip) = true ∧
+    (runProg .egress m 1000 (eth ++ [0x08,0x00] ++ ip) 65535).2.ret = TC_ACT_SHOT := by
+  decide
 
 /-- … and it touches no other subscriber's entry. -/
 theorem policy_frame (d : Dir) (m : Maps) (q : QoS) (k : Bytes) (hk : k ≠ keyBytes q.ip) :
